@@ -135,6 +135,13 @@ class Lifter:
             if f == 'np.arctan2':
                 return sp.atan2(self.lift(args[0]), self.lift(args[1]))
             return one[f](self.lift(args[0]))
+        if f == 'np.clip' and len(args) == 3:
+            return sp.Min(sp.Max(self.lift(args[0]), self.lift(args[1])),
+                          self.lift(args[2]))
+        if f in ('np.minimum', 'min') and len(args) == 2:
+            return sp.Min(self.lift(args[0]), self.lift(args[1]))
+        if f in ('np.maximum', 'max') and len(args) == 2:
+            return sp.Max(self.lift(args[0]), self.lift(args[1]))
         if f in ('np.sum', 'sum') and len(args) == 1:
             return sp.Function('SUM')(self.lift(args[0]))
         if isinstance(n.func, ast.Attribute):
